@@ -11,6 +11,7 @@ Require Import Fggs.Model.PTensorOps.
 Require Import Fggs.Proofs.PTensor_bcast Fggs.Proofs.PTensor_bcast_inv Fggs.Proofs.PTensor_bcast_thm Fggs.Proofs.PTensor_bcast_xval.
 Require Import Fggs.Proofs.Axis_clone Fggs.Proofs.PTensor_struct Fggs.Proofs.PTensor_getitem Fggs.Proofs.PTensor_reprinv.
 Require Import Fggs.Proofs.PTensor_storage Fggs.Proofs.PTEqual_freshen.
+Require Import Fggs.Model.PTensorOpsCheck Fggs.Proofs.Axis_subst Fggs.Proofs.PTensor_reshape.
 Local Open Scope nat_scope.
 
 (** * L2: the axis algebra *)
@@ -458,3 +459,45 @@ Theorem C06_productAxis_sem : forall rho l,
   eval rho (productAxis l) = evalL rho l /\ numel (productAxis l) = prodn l.
 Proof. exact productAxis_sem. Qed.
 Print Assumptions C06_productAxis_sem.
+
+(** * reshape / view
+
+    Full statement: for every well-typed tensor, [reshape_or_view] either raises RuntimeError or returns
+    a tensor denoting the reshaped dense tensor, and it returns when the target merges adjacent dimensions
+    or inserts / removes size-1 dimensions.
+    Proved: (1) when the call returns (general branch, i.e. more than one element) the result denotes the
+    reshaped tensor, under explicit premises about the unifier computed inside the call -- completeness of
+    that call ([complete_for]: the conclusion of agent-UNIFY's [C_unify]), solved form ([solvable]:
+    [model_exists]), size preservation of the bindings ([size_preserving]: [wts_ty] + [ty_numel]) -- and
+    well-formedness of the result (checked by the run-time monitor); (2) the unification cannot return
+    False on a target with the right number of elements when it is complete for that call, because a
+    coincidence of the two products always exists (so RuntimeError is only raised together with the "index
+    type mismatch" warning, which typed targets -- adjacent merges, size-1 insertion / removal -- exclude
+    by agent-UNIFY's totality theorem).  The premises are discharged after merging that branch. *)
+Theorem C06_reshape_refines_partial : forall (V : Type) inferred s next (t r : ptensor V) nx',
+  wf V t -> vars_below V next t -> forallb pos_sizes (vaxes t) = true ->
+  (Nat.eqb (prodl' (shape V t)) (pnumel (paxes t)) && (prodl' (shape V t) <=? 1)) = false ->
+  pt_reshape V inferred s next t = Ok (r, nx') ->
+  wf V r ->
+  (forall s' goals nx st', (inferred = 0 -> s' = s) -> goal_axes s' next = (goals, nx) ->
+     unify (rs_fuel V goals t) (productAxis goals) (productAxis (vaxes t)) (ustate0 nx) = Ok (true, st') ->
+     (next <= nx)%positive -> (forall e, In e goals -> below nx e) ->
+     complete_for nx (productAxis goals) (productAxis (vaxes t)) (us_subst st') /\
+     solvable (us_subst st') /\
+     size_preserving (us_subst st') (goals ++ paxes_axes' (paxes t))) ->
+  prodl' (shape V r) = prodl' (shape V t) /\ default r = default t /\
+  forall idx', in_bounds (shape V r) idx' ->
+    denote V r idx' = denote V t (unflat (shape V t) (flat_offset (shape V r) idx')).
+Proof. exact reshape_refines_partial. Qed.
+Print Assumptions C06_reshape_refines_partial.
+
+Theorem C06_reshape_unify_succeeds : forall (V : Type) s next (t : ptensor V) goals nx b st',
+  wf V t -> vars_below V next t ->
+  prodl' (shape V t) = prodl' s -> (exists rho, Forall (inrange rho) (vaxes t)) ->
+  goal_axes s next = (goals, nx) ->
+  unify (rs_fuel V goals t) (productAxis goals) (productAxis (vaxes t)) (ustate0 nx) = Ok (b, st') ->
+  (forall rho, inrange rho (productAxis goals) -> inrange rho (productAxis (vaxes t)) ->
+     eval rho (productAxis goals) = eval rho (productAxis (vaxes t)) -> b = true) ->
+  b = true.
+Proof. exact reshape_unify_succeeds. Qed.
+Print Assumptions C06_reshape_unify_succeeds.
